@@ -346,7 +346,14 @@ class Scheduler():
             from_time = _libsc3.main.elapsed_time()
         else:
             from_time = self.seconds
+        self._unexpire(item)
         self.queue.add(from_time + delta, item)
+
+    def _unexpire(self, item):
+        # A task that expired in the current tick and was not awakened yet
+        # is still pending. As in the other clocks' queues, scheduling it
+        # again moves it instead of scheduling it twice.
+        self._expired[:] = [e for e in self._expired if e[1] is not item]
 
     def sched(self, delta, item):
         if not hasattr(item, '__awake__'):
@@ -364,6 +371,7 @@ class Scheduler():
         item._clock = self._clock
         if time == float('inf'):
             return
+        self._unexpire(item)
         self.queue.add(time, item)
 
     def clear(self):
@@ -406,11 +414,11 @@ class Scheduler():
                     break
                 else:
                     self._seconds = self.queue.peek()[0]
-            for time, item in self._expired:
+            while self._expired:
+                time, item = self._expired.pop(0)
                 self._seconds = time
                 self._beats = self._clock.secs2beats(time)
                 self._wakeup(item)
-            self._expired.clear()
         self._seconds = value
         self._beats = self._clock.secs2beats(value)
 
